@@ -206,6 +206,41 @@ def run(ctx):
                 if (sym == "°C") != (cur_unit == "C") or lim != ((15, 40) if cur_unit == "C" else (59, 104)):
                     ctx.fail("heater:after_unit_switch", "after the unit setting changed to %s the heater reports symbol %s and limits %r" % (cur_unit, sym, lim),
                              {"class": cls, "unit_now": cur_unit, "symbol": sym, "limits": lim})
+    # writes through the HEATER (the facade's set_target_temperature / async_set_target_temperature), from a neighbouring stored word: every
+    # temperature the device can represent is written as its own word, however close to the present target it is (1/18 degC steps are finer
+    # than the displayed tenth)
+    for cls in ("sync", "async"):
+        for unit in ("C", "F"):
+            rec = Rec()
+            st = build_struct(cls, rec, unit)
+            heater = GeckoWaterHeater(StubFacade(StubSpa(st)))
+            base = rng.randrange(270, 700)
+            for w in list(range(base, base + (40 if ctx.thorough else 19))) + [rng.randrange(270, 720) for _ in range(6)]:
+                for delta in (1, -1, 2):
+                    set_word(st, 2, w)
+                    t = (w + delta) / 18.0 if unit == "C" else (w + delta + 320) / 10.0
+                    rec.w = None
+                    try:
+                        if cls == "sync":
+                            heater.set_target_temperature(t)
+                        else:
+                            co = heater.async_set_target_temperature(t)
+                            try:
+                                co.send(None)
+                            except StopIteration:
+                                pass
+                        wr = rec.w
+                    except Exception as e:  # noqa
+                        wr = "raise %s" % type(e).__name__
+                    ctx.count("heater_level_writes")
+                    ctx.case(("heater_write", cls, unit, w, delta), nontrivial=True)
+                    if wr != (2, 2, w + delta):
+                        ctx.fail("heater:write_from_neighbour:%s" % unit, "target %r deg%s (word %d) requested through the heater while the spa holds word %d: device write %r" % (t, unit, w + delta, w, wr),
+                                 {"class": cls, "unit": unit, "stored_word": w, "requested": t, "requested_word": w + delta, "device_write": wr})
+                        break
+                else:
+                    continue
+                break
     # shipped temperature items are 2-byte words everywhere
     ntemp = 0
     for m in gen_tables.load_tables():
